@@ -4,6 +4,7 @@ pub mod bytes;
 pub mod conv;
 pub mod cost;
 pub mod div;
+pub mod failures;
 pub mod forms;
 pub mod history;
 pub mod modpow;
@@ -26,6 +27,7 @@ pub fn run(name: &str, r: &mut Rec) -> bool {
         "conv" => conv::run(r),
         "cost" => cost::run(r),
         "div" => div::run(r),
+        "failures" => failures::run(r),
         "forms" => forms::run(r),
         "history" => history::run(r),
         "mul" => mul::run(r),
